@@ -6,7 +6,7 @@
 From Coq Require Import ZArith List Bool Lia.
 Import ListNotations.
 From Osmo Require Import Gen.C16_consts.
-From Osmo Require Import C16.Model C16.Spec C16.Statement C16.Layout C16.Refuted C16.SetProof C16.Refine.
+From Osmo Require Import C16.Model C16.Spec C16.Statement C16.Layout C16.Refuted C16.SetProof C16.Refine C16.FrameProof.
 Open Scope Z_scope.
 
 (* the full statement: every history of set / increase / decrease / remove, every fan-out >= 2: no panic, the well-formedness
@@ -58,13 +58,35 @@ Theorem set_only_refines : forall m ops, (2 <= m)%nat -> Forall op_ok ops -> set
 Proof. exact set_only_refines_lemma. Qed.
 Print Assumptions set_only_refines.
 
-(* the query half on its own: ANY store that satisfies WF - however it was reached, Remove included - answers every query
-   like the sorted map of its leaves.  (remove_safe_partial, query half: queries stay correct while the invariant, in
-   particular "every node is keyed by its first entry", still holds.)  Not proved: that the leaves of a store reached through
-   Remove are the sorted map's contents (pull never touches level 0 - checked by correspondence only). *)
-Theorem remove_safe_partial : forall m st, WF m st -> answers_actual st (abs st).
-Proof. exact wf_answers. Qed.
+(* remove_safe_partial - what survives Remove.  For EVERY fan-out and EVERY history of set / increase / decrease / REMOVE that
+   does not panic: the stored leaves are exactly the sorted map's contents (push / updateAccumulation / pull never write
+   below level 1 - frame lemmas in C16/FrameProof.v), hence point lookups and ordered forward / reverse / ranged iteration
+   answer like the sorted map even in the states that finding F2 damages; and whenever the store still satisfies WF (in
+   particular: every node still keyed by its first entry, the left-most node of every level still there) every other query
+   (split, subset sum, prefix sum; total as the code computes it) does too.
+   NOT proved, and false (C16_split_panic_refuted, C16_merge_stale_refuted, C16_orphan_refuted): that WF survives Remove. *)
+Theorem remove_safe_partial : forall m ops st, run_new m ops = Ok st ->
+  abs st = sm_run sm_init ops /\
+  (forall k, tree_get st k = sm_get (sm_run sm_init ops) k) /\
+  (forall b e, iterate st b e = sm_iter (sm_run sm_init ops) b e) /\
+  (forall b e, rev_iterate st b e = sm_rev_iter (sm_run sm_init ops) b e) /\
+  (WF m st -> answers_actual st (sm_run sm_init ops)).
+Proof. exact leaves_tracked. Qed.
 Print Assumptions remove_safe_partial.
+
+(* the query half on its own: ANY store that satisfies WF - however it was reached - answers every query like the sorted map
+   of its leaves *)
+Theorem C16_wf_store_answers : forall m st, WF m st -> answers_actual st (abs st).
+Proof. exact wf_answers. Qed.
+Print Assumptions C16_wf_store_answers.
+
+(* non-vacuity of remove_safe_partial: the F2b witness history (Set a, b, c; Remove b) does not panic, its store is NOT
+   well-formed any more (a split at "b" panics), and Get / iteration are still the map's *)
+Example remove_safe_partial_nonvacuous :
+  exists st, run_new 2 w_panic_ops = Ok st /\ split_acc st kB = Err EIndex /\
+    tree_get st kC = 3 /\ iterate st [] None = [([], 0); (kA, 1); (kC, 3)] /\
+    sm_run sm_init w_panic_ops = [([], 0); (kA, 1); (kC, 3)].
+Proof. eexists; split; [vm_compute; reflexivity|]. vm_compute. repeat split; reflexivity. Qed.
 
 (* NewTree establishes the invariant; one Set / Increase / Decrease preserves it and acts on the leaves like the map's set *)
 Theorem C16_new_tree_wf : forall m, (2 <= m)%nat -> new_tree m = Ok store0 /\ WF m store0 /\ abs store0 = sm_init.
